@@ -466,9 +466,9 @@ func vrPanicScenario(out *vOut, raw map[string]bool) {
 			select {
 			case <-done:
 				out.Stat("panic_then_served", 1)
-			case <-time.After(2 * time.Second):
+			case <-time.After(20 * time.Second):
 				out.Fail("c20-deadlock-listener-mutex-held-after-panic",
-					fmt.Sprintf("after a %s handler panicked (recovered, as controller-runtime does) a %s event is not served within 2 s: the Listener mutex is still held — the wrapper of %s does not release it by a deferred unlock", first, second, first),
+					fmt.Sprintf("after a %s handler panicked (recovered, as controller-runtime does) a %s event is not served within 20 s: the Listener mutex is still held — the wrapper of %s does not release it by a deferred unlock", first, second, first),
 					map[string]any{"first": first, "second": second, "how": "./check C20 (TestVerifRaceSpeaker, vrPanicScenario: real k8s.Listener wrappers, a callback that panics once)"})
 				return
 			}
